@@ -60,3 +60,37 @@ def r01_2(ctx, rr):
             rr.violate(key, "%s is a forwarding implementation of `%s` but calls `%s::%s` on the inner value: the wrapper answers a different query than the wrapped structure" % (b.key, b.name, ct.split("::")[-1], callee_name), b.span)
         elif not ok_args:
             rr.violate(key + ":args", "%s forwards to the same method but does not pass its own parameters through in order: `%s`" % (b.key, show(F, e)[:160]), b.span)
+
+
+CHECKED_DEFAULTS = {
+    "traits::rank_sel::Rank": ["rank"], "traits::rank_sel::RankZero": ["rank_zero", "rank_zero_unchecked"], "traits::rank_sel::Select": ["select"],
+    "traits::rank_sel::SelectZero": ["select_zero"], "traits::indexed_dict::Succ": ["succ", "succ_strict"],
+    "traits::indexed_dict::Pred": ["pred", "pred_strict"], "traits::indexed_dict::IndexedSeq": ["get"],
+    "traits::bit_field_slice::BitFieldSlice": ["get"], "traits::bit_field_slice::BitFieldSliceMut": ["set"],
+    "traits::bit_field_slice::AtomicBitFieldSlice": ["get_atomic", "set_atomic"],
+    "traits::rank_sel::NumBits": ["num_zeros"], "traits::rank_sel::BitCount": ["count_zeros"],
+}
+# non-forwarding overrides confirmed by reading (they repeat the validation themselves; checked by R05.1 / R12.4)
+CONFIRMED_OVERRIDES = {
+    "BitFieldVec as BitFieldSliceMut::set": "validates index and value with the structure's own len and mask (R05.1, R12.4)",
+    "AtomicBitFieldVec as AtomicBitFieldSlice::set_atomic": "validates index and value with the structure's own len and mask (R05.1, R12.4)",
+}
+
+
+@rule("R01.5", props=["C01", "C02", "C04", "C05", "C12"], floor=2, title="the checked default methods are overridden only by forwarders or by the confirmed self-validating implementations")
+def r01_5(ctx, rr):
+    F = ctx.F()
+    seen = 0
+    for b in F.fns():
+        if b.impl_trait in CHECKED_DEFAULTS and b.name in CHECKED_DEFAULTS[b.impl_trait] and not is_derived(b):
+            e = strip_blocks(b.body)
+            fwd = e.get("k") in ("MethodCall", "Call") and call_args(e) and root_is_self(call_args(e)[0]) and F.ctrait(e) == b.impl_trait
+            if fwd:
+                continue
+            seen += 1
+            rr.instances += 1
+            k = short_fn(b.key)
+            ok = k in CONFIRMED_OVERRIDES
+            rr.ob(ok, key="%s:override" % k, sample={"fn": b.key, "confirmed": CONFIRMED_OVERRIDES.get(k)})
+            if not ok:
+                rr.violate("%s:unconfirmed-override" % k, "%s overrides the checked default `%s` of %s with its own body: the domain check of the default (R01.1/R02.1/R04.1/R05.1) no longer protects the unchecked method underneath" % (b.key, b.name, b.impl_trait), b.span)
